@@ -1195,5 +1195,9 @@ PROPERTY = Property(
         "the excluded points are run on the real code by the boundary stream and listed as known findings",
         "which files are covered, and which information lint attributes to them, are taken from `reuse lint --json` (C03/C04) and "
         "cross-checked against the generator's ground truth",
+        "stream output (--output, oracle only): a file that lies at the output path when the command starts, is not empty and does not carry an "
+        "ignored SPDX name (*.spdx, *.spdx.{rdf,json,xml,yml,yaml}) is a covered file and must be listed with the checksum of the bytes it had "
+        "then; where an earlier document in the project makes lint read copyright lines containing the closing text marker (known finding "
+        "text-contains-closing-marker) only success and a FileName line per covered file are demanded",
     ],
 )
